@@ -13,6 +13,13 @@ SEQ = {
             [('creators', 3, F), ('single1', 5, F), ('single2', 5, F), ('single3', 4, R), ('depth2', 4, F)], '6 C02'),
     'C06': (['C06'], [('single1', 3, F), ('single2', 3, F), ('single3', 3, F), ('errops', 3, F), ('multi', 3, R), ('endless', 2, F)],
             [('single1', 4, F), ('single2', 4, F), ('single3', 4, R), ('errops', 4, F), ('multi', 4, R), ('endless', 3, F), ('depth2', 4, F)], '6 C06'),
+    'C03': (['REF'], [('multi', 4, R)], [('multi', 5, R), ('multi3', 4, F)], '6 C03'),
+    'C04': (['REF'], [('errops', 4, F)], [('errops', 5, F), ('errdeep', 4, F)], '6 C04'),
+    'C05': (['C05'], [('direct', 4, F), ('single1', 3, F), ('single2', 3, F), ('single3', 3, F), ('errops', 3, F), ('multi', 3, R), ('subjects', 4, R)],
+            [('direct', 5, F), ('single1', 4, F), ('single2', 4, F), ('single3', 4, R), ('errops', 4, F), ('multi', 4, R), ('subjects', 5, R), ('depth2', 4, F)], '6 C05'),
+    'C14': (['REF', 'TAP'], [('c14', 2, F), ('c14hot', 4, F)], [('c14', 3, F), ('c14hot', 5, F)], '6 C14'),
+    'C17': (['C17'], [('single1', 3, F), ('single2', 3, F), ('single3', 3, F), ('errops', 3, F), ('multi', 3, R), ('direct', 3, F), ('subjects', 3, R)],
+            [('single1', 4, F), ('single2', 4, F), ('single3', 4, R), ('errops', 4, F), ('multi', 4, R), ('direct', 4, F), ('subjects', 4, R), ('depth2', 4, F)], '6 C17'),
 }
 
 
